@@ -42,3 +42,9 @@ Definition lex_bits : Z := 64.
 Definition gram_bits : Z := 64.
 Definition emit_bits : Z := 64.
 Definition arg_bits : Z := 64.
+
+(* EmitCaseLabel: node[1].longValue, the cast, the label argument, the size of the text buffer *)
+Definition case_member_bits : Z := 64.
+Definition case_cast_bits : Z := 64.
+Definition case_arg_bits : Z := 64.
+Definition case_buf : Z := 24.
